@@ -5,6 +5,7 @@
 let hx = hex_of_bytes
 let bx s = bytes_of_hex s
 let split c s = String.split_on_char c s
+let sm2alg = (try if Sys.getenv "C15_SM2_NULL" = "1" then alg_sm2sm3_null else alg_sm2sm3 with Not_found -> alg_sm2sm3)
 let keys = try Array.of_list (List.map bx (split ' ' (Sys.getenv "C15_KEYS"))) with Not_found -> [||]
 let key i = if i >= 1 && i <= Array.length keys then keys.(i - 1) else failwith "key index"
 let ni = n_of_int
@@ -25,16 +26,16 @@ let cert_line ws = match ws with
     if v < -1 || v > 2 || bx serial = [] || not (time_ok nb) || not (time_ok na) then "ERR issue"
     else if Int64.of_string nb >= Int64.of_string na then "ERR parse"
     else begin
-      let vals = tbs_cert_values (zi v) (bx serial) (bx issuer) (n_of_i64 nb) (n_of_i64 na) (bx subject) (key (int_of_string k)) (bx iu) (bx su) (bx ex) in
+      let vals = tbs_cert_values sm2alg (zi v) (bx serial) (bx issuer) (n_of_i64 nb) (n_of_i64 na) (bx subject) (key (int_of_string k)) (bx iu) (bx su) (bx ex) in
       let tbs = tlv (ni 48) (enc_items vals) in
-      let cert = sign_to_der vals alg_sm2sm3 dummy_sig in
+      let cert = sign_to_der vals sm2alg dummy_sig in
       match get_details tbs_cert_layout cert with
       | Some ((vs, alg), _) ->
         let a = Array.of_list vs in
         let pver = (match a.(0) with Some (_, c) -> small_int_of (inner_content (Some (N0, c))) | None -> -1) in
         Printf.sprintf "tbs=%s ver=%d serial=%s alg=%s/%s issuer=%s nb=%s na=%s subject=%s key=%s iuid=%s suid=%s exts=%s verify=1 otherkey=0 otherid=0"
           (hx tbs) pver (hx (integer_value (content a.(1))))
-          (if content a.(2) = alg_sm2sm3 then "sm2sm3" else "other") (if alg = alg_sm2sm3 then "sm2sm3" else "other")
+          (if alg_is_sm2sm3 (content a.(2)) then "sm2sm3" else "other") (if alg_is_sm2sm3 alg then "sm2sm3" else "other")
           (hx (content a.(3))) nb na (hx (content a.(5))) (hx (last_n 64 (content a.(6))))
           (hx (match content a.(7) with _ :: r -> r | [] -> [])) (hx (match content a.(8) with _ :: r -> r | [] -> []))
           (hx (inner_content a.(9)))
@@ -48,12 +49,12 @@ let req_line ws = match ws with
     if v <> 0 then "ERR issue" else begin
       let vals = req_info_values (ni v) (bx subject) (key (int_of_string k)) (bx attrs) in
       let tbs = tlv (ni 48) (enc_items vals) in
-      match get_details req_info_layout (sign_to_der vals alg_sm2sm3 dummy_sig) with
+      match get_details req_info_layout (sign_to_der vals sm2alg dummy_sig) with
       | Some ((vs, alg), _) ->
         let a = Array.of_list vs in
         Printf.sprintf "tbs=%s ver=%d subject=%s key=%s attrs=%s alg=%s verify=1 otherid=0"
           (hx tbs) (small_int_of (content a.(0))) (hx (content a.(1))) (hx (last_n 64 (content a.(2)))) (hx (content a.(3)))
-          (if alg = alg_sm2sm3 then "sm2sm3" else "other")
+          (if alg_is_sm2sm3 alg then "sm2sm3" else "other")
       | None -> "MODEL-get_details-failed"
     end
   | _ -> "ERR bad-op"
@@ -71,15 +72,15 @@ let crl_line ws = match ws with
     else begin
       let rev = revoked_der es and exts = bx ex in
       if (v >= 0 && v <> 1) || (rev <> [] && v <> 1) || (exts <> [] && v <> 1) then "ERR parse" else
-      let vals = tbs_crl_values (if v < 0 then None else Some (ni v)) (bx issuer) (n_of_i64 thisu)
+      let vals = tbs_crl_values sm2alg (if v < 0 then None else Some (ni v)) (bx issuer) (n_of_i64 thisu)
           (if nextu = "-1" then None else Some (n_of_i64 nextu)) rev exts in
       let tbs = tlv (ni 48) (enc_items vals) in
-      match get_details tbs_crl_layout (sign_to_der vals alg_sm2sm3 dummy_sig) with
+      match get_details tbs_crl_layout (sign_to_der vals sm2alg dummy_sig) with
       | Some ((vs, alg), _) ->
         let a = Array.of_list vs in
         Printf.sprintf "tbs=%s ver=%d alg=%s/%s issuer=%s this=%s next=%s revoked=%s exts=%s verify=1 otherkey=0 otherid=0"
           (hx tbs) (match a.(0) with Some (_, c) -> small_int_of c | None -> -1)
-          (if content a.(1) = alg_sm2sm3 then "sm2sm3" else "other") (if alg = alg_sm2sm3 then "sm2sm3" else "other")
+          (if alg_is_sm2sm3 (content a.(1)) then "sm2sm3" else "other") (if alg_is_sm2sm3 alg then "sm2sm3" else "other")
           (hx (content a.(2))) thisu (match a.(4) with Some _ -> nextu | None -> "-1") (hx (content a.(5))) (hx (inner_content a.(6)))
       | None -> "MODEL-get_details-failed"
     end
@@ -213,6 +214,14 @@ let handle ws = match ws with
   | "certck" :: r -> let l = cert_line r in if String.length l >= 3 && String.sub l 0 3 = "ERR" then l else l ^ " check=1"
   | ["extlen"; kind; crit; hex] -> extlen_line kind crit hex
   | ["sigalg"; kind; inner; outer; mode] -> sigalg_line kind inner outer mode
+  | ["threads"; _; _] -> "mismatches=0"
+  | ["crlcheck"; serial; entries; issuer; sk; whenv; flip; dp; fetch] ->
+    let es = parse_entries entries in
+    if List.exists (fun (sn, d, _) -> sn = [] || not (time_ok d)) es || bx serial = [] then "ERR args" else
+    let fetchv = if dp = "0" then FetchNoDistributionPoint else if fetch = "fail" then FetchFailed else FetchOk in
+    let ents = List.map (fun (sn, d, x) -> Some ((integer_value (integer_content sn), n_of_i64 d), x)) es in
+    if cert_check_crl fetchv (flip = "-1") (whenv = "fresh") (issuer = "ca") (sk = "1") ents (integer_value (integer_content (bx serial)))
+    then "1" else "ERR"
   | "req" :: r -> req_line r
   | "crl" :: r -> crl_line r
   | ["crlfind"; entries; serial] ->
